@@ -1,13 +1,371 @@
 package main
 
-// Extension slot G: request lines (goExecExtG) and generators (registered with regExtra) of one model extension.
+// Extension slot G.
+//
+// C08 — the strict reference decoder for signcryption handed ALL recipients'
+// keys (Lean: Model/SpecDecodeAll.lean `signcryptionAll`, theorems
+// Props/C08DecodeSc.lean).
+//
+// Request line:  sd.scall <msg hex> <k1,k2,…>   keys in HEADER order, `b:<box secret>` | `s:<symmetric key>`
+//   model  →  ok plaintext=<hex> sender=<hex|anon> recipients=<identifier hex,…> | reject <why>
+//   goExecExtG answers the same line with the REAL code: `SigncryptOpen` is run once per key (a keyring
+//   holding just that box secret / a resolver that knows just that symmetric key, at that position);
+//   "ok …" iff EVERY recipient opens the message and all obtain the same plaintext and sender; the
+//   identifiers are read from the header with the harness's own MessagePack tree.  Anything else: "reject".
+//   Compared: ok-lines exactly, rejections as rejections (the reason is the oracle's own).
+//
+// Streams (registered for C08):
+//   oracle.sc.all.genuine   real `SigncryptSeal` output, 1–4 recipients (box and symmetric mixed, shuffled by
+//                           the library), anonymous / named sender: must be ACCEPTED with all keys, decoded
+//                           plaintext, sender and symmetric identifiers as given to the sender.
+//   oracle.sc.all.foreign   the same message sealed for recipients A… and B' while the oracle is handed the key
+//                           of B (≠ B') at B's position: the header entry of ANOTHER recipient is not the one
+//                           the specification prescribes for the key list — the one-key oracle at A's index
+//                           still accepts (checked), the all-keys oracle must REJECT; so must the real code for B.
+//   oracle.sc.all.corrupt   one byte of another recipient's payload key box / identifier flipped in place
+//                           (header hash changes): rejected.
+//   oracle.sc.all.keys      genuine message, key list with a key missing, one too many, two keys swapped, a
+//                           wrong key: rejected (the swapped case is judged by the model only: the real code
+//                           finds a box key's entry by identifier, not by position).
+
+import (
+	"bytes"
+	"fmt"
+	"strings"
+
+	saltpack "github.com/keybase/saltpack"
+
+	"verifharness/internal/keys"
+	"verifharness/internal/prng"
+)
+
+// posResolver knows one symmetric key, for the identifier at one position.
+type posResolver struct {
+	idx int
+	key []byte
+}
+
+func (p posResolver) ResolveKeys(ids [][]byte) ([]*saltpack.SymmetricKey, error) {
+	out := make([]*saltpack.SymmetricKey, len(ids))
+	if p.idx < len(ids) {
+		var k saltpack.SymmetricKey
+		copy(k[:], p.key)
+		out[p.idx] = &k
+	}
+	return out, nil
+}
+
+// scHeaderIdents reads the recipient identifiers out of a signcryption header.
+func scHeaderIdents(msg []byte) ([][]byte, bool) {
+	objs, _ := mpSplit(msg)
+	if len(objs) == 0 {
+		return nil, false
+	}
+	h, _, err := mpParse(objs[0])
+	if err != nil || h.K != mvBin {
+		return nil, false
+	}
+	in, _, err := mpParse(h.Data)
+	if err != nil || in.K != mvArr || len(in.Arr) < 6 || in.Arr[5].K != mvArr {
+		return nil, false
+	}
+	var ids [][]byte
+	for _, e := range in.Arr[5].Arr {
+		if e.K != mvArr || len(e.Arr) < 2 || (e.Arr[0].K != mvBin && e.Arr[0].K != mvStr) {
+			return nil, false
+		}
+		ids = append(ids, e.Arr[0].Data)
+	}
+	return ids, true
+}
 
 func goExecExtG(t []string) (string, bool) {
 	switch t[0] {
+	case "sd.scall":
+		if len(t) != 3 {
+			return "bad-op", true
+		}
+		msg := unhex(t[1])
+		ks := splitL(t[2])
+		ids, ok := scHeaderIdents(msg)
+		if !ok || len(ids) != len(ks) || len(ks) == 0 {
+			return "reject", true
+		}
+		var pt0 []byte
+		snd0 := ""
+		for i, k := range ks {
+			p := strings.Split(k, ":")
+			if len(p) != 2 {
+				return "bad-op", true
+			}
+			var ring *keys.Ring
+			var res saltpack.SymmetricKeyResolver
+			if p[0] == "b" {
+				ring = parseRing(p[1], "std", "std", "std", "std", &keys.Log{})
+			} else {
+				ring = parseRing("-", "std", "std", "std", "std", &keys.Log{})
+				res = posResolver{i, unhex(p[1])}
+			}
+			spk, pt, err := saltpack.SigncryptOpen(msg, ring, res)
+			if err != nil {
+				return "reject", true
+			}
+			snd := "anon"
+			if spk != nil {
+				snd = hexNoDash(spk.ToKID())
+			}
+			if i == 0 {
+				pt0, snd0 = pt, snd
+			} else if !bytes.Equal(pt, pt0) || snd != snd0 {
+				return "reject", true
+			}
+		}
+		hs := make([]string, len(ids))
+		for i, id := range ids {
+			hs[i] = hexNoDash(id)
+		}
+		return fmt.Sprintf("ok plaintext=%s sender=%s recipients=%s", hexNoDash(pt0), snd0, strings.Join(hs, ",")), true
 	}
 	return "", false
 }
 
+// rejection reasons are the oracle's own: compare ok-lines exactly, rejections as rejections
+func scAllCmp(goOut, modelOut string) bool {
+	if strings.HasPrefix(goOut, "reject") {
+		return strings.HasPrefix(modelOut, "reject")
+	}
+	return goOut == modelOut
+}
+
+type scRecip struct {
+	box   bool
+	sec   []byte // box secret | symmetric key
+	ident []byte // symmetric identifier
+}
+
+func (q scRecip) key() string {
+	if q.box {
+		return "b:" + keys.Hex(q.sec)
+	}
+	return "s:" + keys.Hex(q.sec)
+}
+
+func (q scRecip) sealSpec() string {
+	if q.box {
+		return "b:" + keys.Hex(boxPub(q.sec))
+	}
+	return "s:" + keys.Hex(q.sec) + ":" + keys.Hex(q.ident)
+}
+
+func scSealLine(r *prng.R, snd string, rs []scRecip, pt []byte) string {
+	var bs, ss []string
+	for _, q := range rs {
+		if q.box {
+			bs = append(bs, q.sealSpec())
+		} else {
+			ss = append(ss, q.sealSpec())
+		}
+	}
+	j := func(x []string) string {
+		if len(x) == 0 {
+			return "-"
+		}
+		return strings.Join(x, ",")
+	}
+	return fmt.Sprintf("sc.seal %s %s %s g:%s %s %d %s", snd, j(bs), j(ss), keys.Hex(r.Bytes(32)),
+		randScript(r, len(rs), false, -1, 0).Spec(), mib, keys.Hex(pt))
+}
+
+// headerOrder finds, with the ONE-key oracle, the header index each recipient's key opens.
+func scHeaderOrder(msg []byte, rs []scRecip) []scRecip {
+	out := make([]scRecip, len(rs))
+	used := make([]bool, len(rs))
+	for _, q := range rs {
+		found := false
+		for idx := range rs {
+			if used[idx] {
+				continue
+			}
+			if strings.HasPrefix(askGen(fmt.Sprintf("sd.sc %s %d %s", keys.Hex(msg), idx, q.key())), "ok ") {
+				out[idx], used[idx], found = q, true, true
+				break
+			}
+		}
+		if !found {
+			return nil
+		}
+	}
+	return out
+}
+
+func scKeyList(rs []scRecip) string {
+	s := make([]string, len(rs))
+	for i, q := range rs {
+		s[i] = q.key()
+	}
+	if len(s) == 0 {
+		return "-"
+	}
+	return strings.Join(s, ",")
+}
+
+func genOracleScAll(ctx *Ctx, emit func(Case)) {
+	r := ctx.R.Fork()
+	signer := r.Bytes(32)
+	newRecip := func() scRecip {
+		if r.Bool() {
+			return scRecip{box: true, sec: r.Bytes(32)}
+		}
+		return scRecip{sec: r.Bytes(32), ident: r.Bytes(prng.Pick(r, 32, 32, 1, 16, 40))}
+	}
+	lens := []int{0, 1, 17, 300}
+	for i := 0; i < ctx.N(8, 120); i++ {
+		lens = append(lens, smallLen(r))
+	}
+	if !ctx.Quick {
+		lens = append(lens, mib, mib+1)
+	}
+	for li, n := range lens {
+		pt := r.Bytes(n)
+		nr := 1 + li%4
+		if n >= mib {
+			nr = 2
+		}
+		rs := make([]scRecip, nr)
+		for i := range rs {
+			rs[i] = newRecip()
+		}
+		snd, wantSnd := keys.Hex(signer), "sender="+hexNoDash(sigPub(signer))
+		if r.Intn(3) == 0 {
+			snd, wantSnd = "anon", "sender=anon"
+		}
+		sealed := goExec(scSealLine(r, snd, rs, pt))
+		msg, ok := okBytes(sealed)
+		if !ok {
+			panic("SigncryptSeal failed: " + sealed)
+		}
+		ord := scHeaderOrder(msg, rs)
+		if ord == nil {
+			emit(Case{Stream: "oracle.sc.all.genuine", Line: "sd.scall " + keys.Hex(msg) + " " + scKeyList(rs), GoOut: "ok", Cmp: scAllCmp,
+				Direct: func() string { return "the one-key oracle finds no header index for some recipient of a genuine message" }})
+			continue
+		}
+		br := fmt.Sprintf("%s/recips=%d/anon=%v", sizeClass(n), nr, snd == "anon")
+		line := "sd.scall " + keys.Hex(msg) + " " + scKeyList(ord)
+		gout := goExec(line)
+		pt0, ord0 := pt, ord
+		emit(Case{Stream: "oracle.sc.all.genuine", Line: line, GoOut: gout, Cmp: scAllCmp, Branch: br,
+			Sample: map[string]interface{}{"op": "SigncryptSeal -> strict reference decoder with all recipients' keys", "plaintext_len": n, "recipients": nr},
+			Direct: func() string {
+				wants := []string{"plaintext=" + hexNoDash(pt0) + " ", wantSnd}
+				for _, q := range ord0 {
+					if !q.box {
+						wants = append(wants, hexNoDash(q.ident))
+					}
+				}
+				if f := strictOK(askGen(line), wants...); f != "" {
+					return fmt.Sprintf("the all-keys strict decoder does not accept what SigncryptSeal emitted: %s ; plaintext_len=%d recipients=%d", f, n, nr)
+				}
+				if !strings.HasPrefix(gout, "ok ") {
+					return fmt.Sprintf("a recipient of a genuine signcryption message cannot open it: plaintext_len=%d recipients=%d", n, nr)
+				}
+				return ""
+			}})
+		if n >= mib {
+			continue
+		}
+		// --- key lists that do not fit --------------------------------------------------
+		rejected := func(stream, what, l string, useGo bool) {
+			g := "reject"
+			if useGo {
+				g = goExec(l)
+			}
+			emit(Case{Stream: stream, Line: l, GoOut: g, Cmp: scAllCmp, Branch: what,
+				Direct: func() string {
+					if a := askGen(l); !strings.HasPrefix(a, "reject") {
+						return "the all-keys strict decoder accepts " + what + ": " + trunc(a, 200)
+					}
+					return ""
+				}})
+		}
+		rejected("oracle.sc.all.keys", "missing-key", "sd.scall "+keys.Hex(msg)+" "+scKeyList(ord[:len(ord)-1]), true)
+		rejected("oracle.sc.all.keys", "extra-key", "sd.scall "+keys.Hex(msg)+" "+scKeyList(append(append([]scRecip(nil), ord...), newRecip())), true)
+		wrong := append([]scRecip(nil), ord...)
+		wi := r.Intn(len(wrong))
+		wrong[wi] = scRecip{box: wrong[wi].box, sec: r.Bytes(32), ident: wrong[wi].ident}
+		rejected("oracle.sc.all.keys", "wrong-key", "sd.scall "+keys.Hex(msg)+" "+scKeyList(wrong), true)
+		if nr >= 2 {
+			sw := append([]scRecip(nil), ord...)
+			sw[0], sw[1] = sw[1], sw[0]
+			// the real code finds a box key's entry by identifier, not by position: model only
+			rejected("oracle.sc.all.keys", "swapped-keys", "sd.scall "+keys.Hex(msg)+" "+scKeyList(sw), false)
+		}
+		// --- another recipient's entry is for somebody else -------------------------------
+		if nr >= 2 {
+			j := 1 + r.Intn(nr-1) // the recipient whose entry is replaced (never rs[0])
+			rs2 := append([]scRecip(nil), rs...)
+			rs2[j] = scRecip{box: rs[j].box, sec: r.Bytes(32), ident: rs[j].ident}
+			sealed2 := goExec(scSealLine(r, snd, rs2, pt))
+			msg2, ok := okBytes(sealed2)
+			if !ok {
+				panic("SigncryptSeal failed: " + sealed2)
+			}
+			ord2 := scHeaderOrder(msg2, rs2)
+			if ord2 != nil {
+				// hand the oracle the keys of the ORIGINAL recipients at the positions of their stand-ins
+				asked := make([]scRecip, nr)
+				opener := -1
+				for idx, q := range ord2 {
+					asked[idx] = q
+					if bytes.Equal(q.sec, rs2[j].sec) {
+						asked[idx] = rs[j]
+					} else if opener < 0 {
+						opener = idx
+					}
+				}
+				l := "sd.scall " + keys.Hex(msg2) + " " + scKeyList(asked)
+				g := goExec(l)
+				op := opener
+				emit(Case{Stream: "oracle.sc.all.foreign", Line: l, GoOut: g, Cmp: scAllCmp, Branch: br,
+					Direct: func() string {
+						if a := askGen(fmt.Sprintf("sd.sc %s %d %s", keys.Hex(msg2), op, asked[op].key())); !strings.HasPrefix(a, "ok ") {
+							return "the one-key oracle does not accept a genuine message at an untouched recipient: " + trunc(a, 200)
+						}
+						if a := askGen(l); !strings.HasPrefix(a, "reject") {
+							return "the all-keys strict decoder accepts a message whose entry for another recipient is not that recipient's: " + trunc(a, 200)
+						}
+						if !strings.HasPrefix(g, "reject") {
+							return "the real code lets a recipient open a message that carries no entry for it"
+						}
+						return ""
+					}})
+			}
+			// --- in-place corruption of another recipient's entry ---------------------------
+			ids, _ := scHeaderIdents(msg)
+			tgt := 1 + r.Intn(nr-1)
+			var needle []byte
+			what := "box"
+			if len(ids[tgt]) < 16 {
+				continue // too short to be located unambiguously in the bytes
+			}
+			if r.Bool() {
+				needle, what = ids[tgt], "ident"
+			}
+			bad := append([]byte(nil), msg...)
+			pos := -1
+			if needle != nil {
+				pos = bytes.Index(bad, needle)
+			} else if p := bytes.Index(bad, ids[tgt]); p >= 0 {
+				pos = p + len(ids[tgt]) + 2 + r.Intn(48) // bin8 header (c4 30) of the 48-byte box, then its bytes
+			}
+			if pos >= 0 && pos < len(bad) {
+				bad[pos] ^= 1 << uint(r.Intn(8))
+				rejected("oracle.sc.all.corrupt", what, "sd.scall "+keys.Hex(bad)+" "+scKeyList(ord), true)
+			}
+		}
+	}
+}
+
 func init() {
-	// regExtra("Cnn", func(ctx *Ctx, emit func(Case)) { … })
+	regExtra("C08", genOracleScAll)
 }
